@@ -393,7 +393,7 @@ def Iter.nextPinned (it : Iter) (m : Mem) : Iter × Option Triple :=
     else ({ it with pending := r }, none)
 
 inductive Ev
-  | mut (op : Op)
+  | mutate (op : Op)
   | load (ts : List Triple)
   | next
   deriving Repr
@@ -401,7 +401,7 @@ inductive Ev
 /-- yields of a schedule, each with the store states since the generator began (latest first) -/
 def yields (hist : List Mem) (m : Mem) (it : Iter) : List Ev → List (Triple × List Mem)
   | [] => []
-  | .mut op :: es => yields (m.step op :: hist) (m.step op) it es
+  | .mutate op :: es => yields (m.step op :: hist) (m.step op) it es
   | .load ts :: es => yields hist m (it.load m ts) es
   | .next :: es =>
     match (it.next m).2 with
@@ -411,13 +411,13 @@ def yields (hist : List Mem) (m : Mem) (it : Iter) : List Ev → List (Triple ×
 /-- some step of the schedule raised -/
 def schedRaises (m : Mem) (it : Iter) : List Ev → Bool
   | [] => false
-  | .mut op :: es => (m.step op).err || schedRaises (m.step op) it es
+  | .mutate op :: es => (m.step op).err || schedRaises (m.step op) it es
   | .load ts :: es => schedRaises m (it.load m ts) es
   | .next :: es => it.nextRaises m || schedRaises m (it.next m).1 es
 
 def yieldsPinned (hist : List Mem) (m : Mem) (it : Iter) : List Ev → List (Triple × List Mem)
   | [] => []
-  | .mut op :: es => yieldsPinned (m.step op :: hist) (m.step op) it es
+  | .mutate op :: es => yieldsPinned (m.step op :: hist) (m.step op) it es
   | .load ts :: es => yieldsPinned hist m (it.load m ts) es
   | .next :: es =>
     match (it.nextPinned m).2 with
